@@ -739,16 +739,7 @@ func (d *driver) runRandom(forks []string, rounds, ntx int, seed int64) {
 			for i := 0; i < ntx; i++ {
 				sp := k.RandTx(r)
 				if _, ok := nonces[sp.From]; !ok {
-					// next free nonce: TxPool.Nonce was observed to fall back to the state nonce after a head change
-					// although executable transactions of the account are still pending, so the pending list is consulted too
-					nonces[sp.From] = pool.Nonce(k.Addrs[sp.From])
-					pe, qu := pool.ContentFrom(k.Addrs[sp.From])
-					for _, t := range append(pe, qu...) {
-						if t.Nonce() >= nonces[sp.From] {
-							nonces[sp.From] = t.Nonce() + 1
-							d.sum.Count("pool-nonce-behind-pending")
-						}
-					}
+					nonces[sp.From] = pool.PoolNonce(k.Addrs[sp.From]) // next nonce on top of the executable transactions in the pool
 				}
 				sp.Tip = int64(1 + r.Intn(40))
 				if r.Intn(3) == 0 {
@@ -762,7 +753,7 @@ func (d *driver) runRandom(forks []string, rounds, ntx int, seed int64) {
 					to := k.Addrs[5]
 					sp.To = &to
 					if _, ok := nonces[sp.AuthKey]; !ok {
-						nonces[sp.AuthKey] = pool.Nonce(k.Addrs[sp.AuthKey])
+						nonces[sp.AuthKey] = pool.PoolNonce(k.Addrs[sp.AuthKey])
 					}
 					authNonce = nonces[sp.AuthKey]
 				}
@@ -777,7 +768,7 @@ func (d *driver) runRandom(forks []string, rounds, ntx int, seed int64) {
 							pn = append(pn, t.Nonce())
 						}
 						st, _ := bc.State()
-						fmt.Fprintf(os.Stderr, "reject %s round %d from %d nonce %d poolNonce %d state %d pending %v queued %d: %v\n", fork, round, sp.From, nonces[sp.From], pool.Nonce(k.Addrs[sp.From]), st.GetNonce(k.Addrs[sp.From]), pn, len(qu), errs[0])
+						fmt.Fprintf(os.Stderr, "reject %s round %d from %d nonce %d poolNonce %d state %d pending %v queued %d: %v\n", fork, round, sp.From, nonces[sp.From], pool.PoolNonce(k.Addrs[sp.From]), st.GetNonce(k.Addrs[sp.From]), pn, len(qu), errs[0])
 					}
 					continue
 				}
@@ -864,7 +855,7 @@ func (d *driver) runRandom(forks []string, rounds, ntx int, seed int64) {
 					for _, t := range pe {
 						pn = append(pn, t.Nonce())
 					}
-					fmt.Fprintf(os.Stderr, "after sync %s round %d key %d poolNonce %d pending %v\n", fork, round, i, pool.Nonce(k.Addrs[i]), pn)
+					fmt.Fprintf(os.Stderr, "after sync %s round %d key %d poolNonce %d pending %v\n", fork, round, i, pool.PoolNonce(k.Addrs[i]), pn)
 				}
 			}
 			// second chain instance: plain InsertChain
